@@ -96,6 +96,13 @@ impl Arena {
         self.delegate_target().offset()
     }
 
+    /// Verification accessor: `(base address, capacity, commit, offset)`.
+    #[cfg(feature = "verif")]
+    #[must_use]
+    pub fn verif_state(&self) -> (usize, usize, usize, usize) {
+        self.delegate_target_unchecked().verif_state()
+    }
+
     #[allow(clippy::missing_safety_doc)]
     pub unsafe fn reset(&self, to: usize) {
         unsafe { self.delegate_target().reset(to) }
